@@ -73,6 +73,13 @@ def path_name(st):
     return (" on path [" + ", ".join(taken)[:160] + "]") if taken else ""
 
 
+def carries(I: Interp, b, name: str, i: int) -> bool:
+    """is the bit, on the current path, equal to input bit (name, i)?  (compared modulo what the path knows: on a path that has
+    learnt `message == 0` a constant 0 does carry every message bit)"""
+    d = I.simp(b ^ I.atom_form((name, i))) if not isinstance(b, OB) else b
+    return isinstance(d, F) and d.is_const and d.c == 0
+
+
 def atom_index(I: Interp, b, name: str):
     """if the form is exactly one atom (name, i) return i"""
     b = I.simp(b)
@@ -183,7 +190,7 @@ def check_bptc19696(ctx, ci, T: Dict[int, tuple], info: List[int]):
         bad.append(("length", repr(data)))
     else:
         for i in range(96):
-            if atom_index(I4, data.items[i], "m") != i:
+            if not carries(I4, data.items[i], "m", i):
                 bad.append((i, repr(data.items[i])[:60]))
     ctx.ob("wiring/extract-repair-codeword", q, not bad, f"message bits altered by repair of an error-free codeword: {bad[:6]}", rep.loc)
 
@@ -303,7 +310,7 @@ def check_vbptc(ctx, name: str):
                 fails["wiring/encode-width"].append(f"encode returns {out!r}, want {n} non-opaque bits{pn}")
                 continue
             tx = out.items
-            bad = [(i, T[k][0]) for i, k in enumerate(info) if atom_index(I, tx[T[k][0]], "m") != i]
+            bad = [(i, T[k][0]) for i, k in enumerate(info) if not carries(I, tx[T[k][0]], "m", i)]
             if bad:
                 fails["wiring/encode-systematic"].append(f"(message bit, tx position) not carrying that bit: {bad[:6]}{pn}")
             cell = {(r, c): tx[S["il"](r, c)] for r in range(R) for c in range(C)}
@@ -381,7 +388,7 @@ def check_vbptc(ctx, name: str):
         if not isinstance(got, ABits) or len(got.items) != S["info"]:
             bad.append(("length", repr(got)))
         else:
-            bad = [(i, T[k][0]) for i, k in enumerate(info) if atom_index(I2, got.items[i], "w") != T[k][0]]
+            bad = [(i, T[k][0]) for i, k in enumerate(info) if not carries(I2, got.items[i], "w", T[k][0])]
         ctx.ob("wiring/extract", key, not bad, f"(output bit, expected rx position) mismatches: {bad[:6]}", ext.loc)
         # three input forms
         I3 = Interp(repo)
